@@ -470,6 +470,13 @@ func ruleC12Valid(p *Prog, a *Anchors, r *Report) {
 			}
 		}
 	}
+	if !okv {
+		// the test sits in a predicate of the cluster (`if isValidContextKey(k) { continue }; return err`): the edge
+		// taken when the predicate reports the mismatch
+		okv = mismatchEdgeIsError(p, check, func(c *ssa.Call) bool {
+			return c.Common().StaticCallee() != nil && c.Common().StaticCallee().Name() == "MatchString"
+		})
+	}
 	if okv {
 		r.OK(p.FuncName(check)+":mismatch-is-error", p.Pos(check.Pos()), "a key that does not match the identifier pattern yields a non-nil error")
 	} else {
@@ -503,6 +510,11 @@ func ruleC12Identifier(p *Prog, a *Anchors, r *Report) {
 				}
 			}
 		}
+	}
+	// … or the regexp global matched in a bool predicate the check calls with the key (isValidContextKey)
+	var predicates []*ssa.Function
+	if pat == "" {
+		pat, predicates = predicatePattern(p, check)
 	}
 	if pat == "" {
 		r.Unk("pattern", p.Pos(check.Pos()), "the validation does not match a constant regular expression")
@@ -550,7 +562,11 @@ func ruleC12Identifier(p *Prog, a *Anchors, r *Report) {
 	}
 	// does the check also consult the keyword list?
 	usesKeywords := false
-	for _, f := range clusterOf(p, check, 1) {
+	cluster := clusterOf(p, check, 1)
+	for _, h := range predicates {
+		cluster = append(cluster, clusterOf(p, h, 1)...)
+	}
+	for _, f := range cluster {
 		for _, b := range f.Blocks {
 			for _, in := range b.Instrs {
 				if u, ok := in.(*ssa.UnOp); ok {
